@@ -323,3 +323,7 @@ fn c16_rate_change_reaches_nested_tracks() {
 	kani::cover!(ra != rb, "w:rate-changed");
 	std::mem::forget(parent);
 }
+
+// (C07/C12: harnesses over a Track + TrackHandle built by the real TrackBuilder (pause / resume / resume_at / set_volume
+// before the first callback, drained twice) did not finish in 900 s even with a concrete command - TrackBuilder::build
+// creates a HashMap with a random hasher and five triple buffers - and were removed. Not decided.)
